@@ -13,10 +13,8 @@ NotVacuous == /\ \A k \in HClauseNames : \E c \in HCases : HPremise(k, c)
 \* or legacy header goes straight to the session).  Must break the property - otherwise crossing header and body
 \* adds nothing to the table.
 HExpectedHeaderOnly(c) ==
-  LET l == HLetter(c) IN
-  IF c.hv = "unk_old" THEN HRefuse(c, 0, 0, 0)
-  ELSE IF HeaderModern(c.hv) THEN HExpected(c)
-  ELSE LET r == Step(SessState(c), l, MsgIndex(c)) IN
+  IF c.hv = "unk_old" \/ HeaderModern(c.hv) THEN HExpected(c)
+  ELSE LET r == SessionStep(c) IN
        HObs(r.o.reply, r.o.code, r.o.nlist, r.o.code = CUnsupportedVer, r.o.h, Left(c, r.st))
 WhatIfRefuted == /\ \E c \in HCases : c.ep = "nosid" /\ c.hv = "absent" /\ "HModernOnlyIfGood" \in HFailed(c, HExpectedHeaderOnly(c))
                  /\ \E c \in HCases : c.ep = "sess" /\ c.hv = "legacy" /\ "HModernOnlyIfGood" \in HFailed(c, HExpectedHeaderOnly(c))
